@@ -18,6 +18,10 @@ pub mod c06;
 pub mod c07;
 pub mod c08;
 pub mod c09;
+pub mod c11;
+pub mod c12;
+pub mod c13;
+pub mod c14;
 pub mod c16;
 pub mod c17;
 pub mod c19;
@@ -28,6 +32,7 @@ pub mod c23;
 pub mod c24;
 pub mod c25;
 pub mod c26;
+pub mod c27;
 pub mod c28;
 pub mod c35;
 pub mod c36;
@@ -45,6 +50,10 @@ pub fn all() -> Vec<PropDef> {
         PropDef { id: "C07", run: c07::run, replay: c07::replay },
         PropDef { id: "C08", run: c08::run, replay: c08::replay },
         PropDef { id: "C09", run: c09::run, replay: c09::replay },
+        PropDef { id: "C11", run: c11::run, replay: c11::replay },
+        PropDef { id: "C12", run: c12::run, replay: c12::replay },
+        PropDef { id: "C13", run: c13::run, replay: c13::replay },
+        PropDef { id: "C14", run: c14::run, replay: c14::replay },
         PropDef { id: "C16", run: c16::run, replay: c16::replay },
         PropDef { id: "C17", run: c17::run17, replay: c17::replay17 },
         PropDef { id: "C18", run: c17::run18, replay: c17::replay18 },
@@ -56,6 +65,7 @@ pub fn all() -> Vec<PropDef> {
         PropDef { id: "C24", run: c24::run, replay: c24::replay },
         PropDef { id: "C25", run: c25::run, replay: c25::replay },
         PropDef { id: "C26", run: c26::run, replay: c26::replay },
+        PropDef { id: "C27", run: c27::run, replay: c27::replay },
         PropDef { id: "C28", run: c28::run, replay: c28::replay },
         PropDef { id: "C35", run: c35::run, replay: c35::replay },
         PropDef { id: "C36", run: c36::run, replay: c36::replay },
